@@ -41,20 +41,48 @@ Print Assumptions C02_no_deliver_before_check.
 (* the honest stream is accepted: every message of a session is delivered with a non-trivial
    authenticated event (C01_roundtrip_message gives ev <> EvNone in protected modes) *)
 
-(* C02_prefix, full statement (NOT proved in full, see the two _partial theorems below):
-     forall T, bytes_ok T -> authentic (sender_log P r0 wire) accepted -> is_prefix delivered sent
-   where (delivered, accepted, fin, _, _) = read_many_flat P fuel r0 T, wire = concat of the
-   sender's packets for `sent` (fewer than 2^32 of them under one key), fin is FNeed or FErr _.
-   Proved: the single-step core for AEAD and encrypt-then-MAC: in a given receiver state the
-   authenticated event determines the delivered payload AND the next receiver state, so a stream
-   accepted with an event of the sender's log delivers the sender's message and leaves the
-   receiver keyed like the honest one.
-   Missing: (1) the induction over the stream, which needs that the events of the log are
-   pairwise distinct in their sequence-number / IV component (fewer than 2^32 packets per key;
-   IV counter below 2^64) to align an accepted event with the position in the sent list;
-   (2) the classic (MAC-then-encrypt) path, where the event holds the plaintext: the payload is
-   determined (C02_no_deliver_before_check) but the next cipher-context state is determined
-   only under an additional injectivity law for decryption. *)
+(* C02_prefix (encrypt-then-MAC and AEAD, one key epoch): for EVERY byte string T presented to a
+   receiver keyed like the sender, under the symbolic premise that every tag / AEAD ciphertext it
+   accepted is in the sender's log ("verifies only if the key owner produced it for exactly these
+   bytes"), and the stated protocol bound that the nonces (packed seqno / IV) of the receiver states
+   of the honest run are pairwise distinct (fewer than 2^32 packets per key epoch, IV counter below
+   2^64: RFC 4344 requires re-keying before the wrap; C01_iv proves the IV part), the delivered
+   messages are a prefix of the sent messages, after which the result is an error or NeedMore
+   (FFuel only if the caller's fuel ran out).  Flips, deletions, insertions, reordering and replay
+   are all instances of T. *)
+Theorem C02_prefix :
+  forall P cinv zinv, prims_ok P cinv zinv ->
+  forall ops s r ws s',
+    sync cinv zinv s r -> ops_ok cinv zinv ops -> all_msgs P ops -> send_ops P s ops = Ok (ws, s') ->
+    protected r -> bytes_ok (concat ws) = true ->
+    forall fuelh, (length ops < fuelh)%nat ->
+    NoDup (honest_nonces P fuelh r (concat ws)) ->
+    forall fuel T ps acc fi rf sf, bytes_ok T = true ->
+      read_many P (list Z) ftake fuel r T = (ps, acc, fi, rf, sf) ->
+      authentic (sender_log P fuelh r (concat ws)) acc ->
+      is_prefix ps (payloads P ops) /\ (fi = FNeed \/ fi = FFuel \/ exists e, fi = FErr e).
+Proof. exact prefix_thm. Qed.
+Print Assumptions C02_prefix.
+
+(* every delivered message's authenticated event carries the receiver's current nonce *)
+Theorem C02_nonce_bound :
+  forall P (r : pstate P) T p ev r' rest,
+    protected r -> read_message P (list Z) ftake r T = Done (p, ev, r') rest ->
+    ev_nonce ev = state_nonce r /\ protected r'.
+Proof. exact nonce_delivered. Qed.
+Print Assumptions C02_nonce_bound.
+
+(* non-vacuity of the distinctness hypothesis (toy primitives, three messages, four states) *)
+Example C02_nodup_example :
+  NoDup (honest_nonces toyP 4 (cfg_apply (init_state 0 true) ex_cfg) ex_wire) /\
+  length (honest_nonces toyP 4 (cfg_apply (init_state 0 true) ex_cfg) ex_wire) = 4%nat.
+Proof. exact ex_nodup. Qed.
+
+(* NOT proved: the classic (MAC-then-encrypt) instance of C02_prefix.  There the authenticated
+   event holds the plaintext, so the payload is determined (C02_no_deliver_before_check) but the
+   next cipher-context state is determined only under an additional law (decryption injective per
+   state), which DESIGN.md section 5 does not list.  The single-step cores used by C02_prefix are
+   kept under their _partial names. *)
 Theorem C02_prefix_aead_step_partial :
   forall P r k iv T W p ev r' rest ph evh rh resth,
     p_mode r = Aead k iv ->
